@@ -112,7 +112,9 @@ LINE_STARTS = ["", "", "", "#", "[", "]", ":", "..", " ", "  ", "    ", "* ", "-
                "[[", "]", "# "]
 DOC_WORDS = ["text", "Some words here.", ":param a: first", ":type a: str", ":returns: x", "**bold**", "``code``",
              "trailing  ", "a#b", "x [y] z", "#", "]", "é中🙂", ":param **kwargs: more", ":keyword k: v", "1. one",
-             "| table |", "\\escaped", "tab\there", "end]", "end#"]
+             "| table |", "\\escaped", "tab\there", "end]", "end#",
+             # characters that str.splitlines() (but not split("\n")) treats as line boundaries
+             "ls\u2028sep", "nel\u0085x", "ff\x0cfeed", "vt\x0btab", "fs\x1csep", "ps\u2029x", "lone\rcr"]
 
 
 def rand_doc_line(rng):
